@@ -29,6 +29,34 @@ ADDED = {
  "C14-3": "file symlinks (second name for a compiled file and a header) in the determinism code bases",
  "C14-4": "aliases whose extension belongs to another language (`f_alias.inc -> f.f90`, `u_alias.f90 -> u.c`)",
  "C18-3": "database entries with an unknown compiler *and* unknown options (two warnings expected)",
+ # round 3 (first contact: 10 of 36)
+ "C02-5": "identifiers spelled like C++ alternative tokens / keywords (`and`, `not`, `compl`, `new`, `L`, `u8` ...) in the E4 and random classes",
+ "C04-5": "40% of the random forests have one header directory outside the analysis root (macros of its headers compared in the final macro table)",
+ "C04-6": "one random forest in 16 carries an include chain 20..100 levels deep whose innermost header defines a macro the translation unit tests",
+ "C05-5": "class LONG: physical lines of 8 KiB .. 200 K characters (identifier, comment, literal, directive, blanks) through FileParser",
+ "C05-6": "CRLF copies for a third of all texts of every class, continuations included (was: random class, no backslash)",
+ "C06-5": "unused files with CRLF line ends and with non-UTF-8 bytes (coverage.json ids are recomputed from the bytes)",
+ "C06-6": "directory names containing dots (`lib-1.2/`, `v2.0/d.ir/`); 1500-line file (k notation of cbi-tree checked)",
+ "C07-5": "platform names equal under lower()/casefold() (`GPU`/`gpu`/`Gpu`, `stra\u00dfe`/`STRASSE`) as table names and as a second rename",
+ "C07-6": "`platforms=` passed as tuple, frozenset and dict keys view as well as set and list",
+ "C08-5": "class H: 210..450 compile commands in one run, every one skipping a `#pragma once` header (long history)",
+ "C08-6": "database entries spelled three ways (absolute / no `directory`, root-relative / relative `directory`) mixed in one database",
+ "C09-5": "directories named `.git`, `.svn`, `.hg`, `CVS`, `node_modules`",
+ "C09-6": "directories and files named `~`, `~root`, `$HOME`, `%TEMP%` queried by relative spellings",
+ "C10-6": "exclude patterns that differ from existing names only in letter case (`*.H`, `/SRC/...`): nothing may be excluded",
+ "C11-6": "`arguments` vectors whose values contain `~`, `$VAR`, `${VAR}`, `$(cmd)`, backquotes, globs, braces: taken literally; include paths of multi-entry databases compared",
+ "C12-5": "compiler names with versions, triplets and dots (`gcc-4.8`, `x86_64-linux-gnu-g++-12.2`, `tool.v1` beside `tool`, unknown `cc0.exe`)",
+ "C12-6": "alias chains of 8..33 links (valid, and closed into a long cycle)",
+ "C13-5": "a search directory whose name contains a blank (`my inc`), `arguments` and `command` forms, attached and separate",
+ "C14-5": "platform names differing only in letter case in the clustering sample (matrix label order compared across hash seeds)",
+ "C14-6": "user-defined passes with their own search directories holding a same-named header; the order of the two enabling flags is a perturbation (C12 end-to-end also got per-pass include paths)",
+ "C15-5": "an excluded header with a second name (file symlink) the pattern does not match: neither name may be a member",
+ "C15-6": "two different headers whose names differ only in letter case, both included by one translation unit",
+ "C16-6": "duplicate classes of 22..60 files, in the command-line sample too",
+ "C17-5": "headers outside the code base included two levels deep from the Fortran file; their line classes compared with fscan",
+ "C17-6": "continued character literals with blanks after `&` and comment / blank lines between the halves (fscan extended per F2018 6.3.2.4)",
+ "C18-5": "one case in 6 puts the dangling includes at the bottom of an include chain 40..100 levels deep",
+ "C18-6": "database-level warnings are compared by content (every unknown flag, the compiler name, the file), with flag lists of about 250 characters",
 }
 rows = []
 for f in sorted(glob.glob(os.path.join(V, "seeded", "*", "meta.json"))):
